@@ -1,5 +1,5 @@
 CONSTANT Docs = {1, 2}
-CONSTANT Names <- N1
+CONSTANT Names <- N12
 CONSTANT Contents = {1, 2}
 CONSTANT MaxSteps = 3
 CONSTANT Modes = {FALSE, TRUE}
@@ -7,7 +7,7 @@ CONSTANT Eccvs = {FALSE, TRUE}
 CONSTANT Kinds = {"put", "push", "del"}
 CONSTANT Brackets = TRUE
 CONSTANT MaxInner = 1
-CONSTANT Shapes <- AllShapes
+CONSTANT Shapes <- ThinShapes
 SPECIFICATION Spec
 VIEW view
 INVARIANT X_LeafSafe
